@@ -43,8 +43,9 @@ def WarriorData.StartOK (d : WarriorData) : Prop :=
   0 ≤ d.start ∧ d.start < 2 ^ 63 ∧ d.code.size < 2 ^ 63
 
 /-- every added warrior has a start offset that is not negative, and start offset and code
-    length below 2^63 (so that `off + Address(start)` and `off + i` do not wrap around 2^64 for
-    offsets below 2^63) -/
+    length below 2^63 (so that `off % m + Address(start)` and `off % m + i` do not wrap around
+    2^64 for a core of at most 2^63 cells; `SpawnWarrior` reduces the offset modulo the core
+    size first, so nothing is asked of the offset) -/
 def StartsOK (s : Sim) : Prop := ∀ d ∈ (s.warriors.map (·.data)).toList, d.StartOK
 
 theorem StartsOK.get {s : Sim} (h : StartsOK s) (i : Nat) (hi : i < s.warriors.size) :
@@ -206,16 +207,19 @@ def Sim.spawned (s : Sim) (i : Nat) (h : i < s.warriors.size) (mem : Array Instr
             living := s.living + 1 } : Sim).report
     { typ := .warriorSpawn, wi := Int.ofNat s.warriors[i].index, addr := off % s.m }
 
-theorem spawn_eq (s : Sim) (wi : Int) (off : UInt64) (h0 : 0 ≤ wi) (hc : wi < s.warriorCount)
+/-- `o` is the offset reduced modulo the core size (`startOffset %= s.m`) -/
+theorem spawn_eq (s : Sim) (wi : Int) (off o : UInt64) (ho : off % s.m = o) (h0 : 0 ≤ wi)
+    (hc : wi < s.warriorCount)
     (hlt : wi.toNat < s.warriors.size) (hst : s.warriors[wi.toNat].state ≠ .alive)
     (hm : s.m ≠ 0) (mem : Array Instr) (q : PQ)
     (hmem : (List.range s.warriors[wi.toNat].data.code.size).foldlM (fun (mem : Array Instr) i =>
-          let a := ((off + UInt64.ofNat i) % s.m).toNat
+          let a := ((o + UInt64.ofNat i) % s.m).toNat
           if h : a < mem.size then Except.ok (mem.set a s.warriors[wi.toNat].data.code[i]! h)
           else Except.error Panic.index) s.mem = .ok mem)
-    (hq : (PQ.new s.maxProcs).push ((off + intToAddr s.warriors[wi.toNat].data.start) % s.m)
+    (hq : (PQ.new s.maxProcs).push ((o + intToAddr s.warriors[wi.toNat].data.start) % s.m)
       = .ok q) :
-    s.spawn wi off = .ok (s.spawned wi.toNat hlt mem q off, true) := by
+    s.spawn wi off = .ok (s.spawned wi.toNat hlt mem q o, true) := by
+  subst ho
   unfold Sim.spawn
   have hbad : (decide (wi < 0) || decide (wi ≥ s.warriorCount)) = false := by
     simp only [Bool.or_eq_false_iff, decide_eq_false_iff_not]
@@ -292,20 +296,33 @@ theorem Spec.Api.spawn_sig (a a' : Api) (wi : Int) (off : Nat) (h : a.spawn wi o
           · rename_i heq; subst heq; rw [hget]; rfl
           · rfl
 
+/-- the reference loads at the offset modulo the core size -/
+theorem Spec.loadAt_mod (M : Nat) (c : Core) (off : Nat) (code : List SInstr) :
+    loadAt M c (off % M) code = loadAt M c off code := by
+  unfold loadAt
+  simp only [Nat.mod_add_mod]
+
+/-- **the reference's `SpawnWarrior` depends only on the offset modulo the core size** -/
+theorem Spec.Api.spawn_mod (a : Api) (wi : Int) (off : Nat) :
+    a.spawn wi (off % a.M) = a.spawn wi off := by
+  unfold Api.spawn
+  simp only [Spec.loadAt_mod, Nat.mod_add_mod]
+
 theorem enqueue_single (P v : Nat) (hP : 1 ≤ P) : enqueue P [] [v] = [v] := by
   simp only [enqueue, List.foldl_cons, List.foldl_nil, List.length_nil, List.nil_append]
   rw [if_pos (by omega)]
 
-/-- the hypotheses under which `SpawnWarrior` is accepted and computes without wrap-around -/
+/-- the hypotheses under which `SpawnWarrior` is accepted and computes without wrap-around
+    (the sums are taken with the offset reduced modulo the core size, as `SpawnWarrior` does) -/
 structure SpawnPre (s : Sim) (wi : Int) (off : UInt64) : Prop where
   nonneg : 0 ≤ wi
   lt     : wi.toNat < s.warriors.size
   state  : ∀ h : wi.toNat < s.warriors.size, s.warriors[wi.toNat].state ≠ .alive
   start0 : ∀ h : wi.toNat < s.warriors.size, 0 ≤ s.warriors[wi.toNat].data.start
   start  : ∀ h : wi.toNat < s.warriors.size,
-            off.toNat + s.warriors[wi.toNat].data.start.toNat < 2 ^ 64
+            (off % s.m).toNat + s.warriors[wi.toNat].data.start.toNat < 2 ^ 64
   code   : ∀ h : wi.toNat < s.warriors.size,
-            off.toNat + s.warriors[wi.toNat].data.code.size ≤ 2 ^ 64
+            (off % s.m).toNat + s.warriors[wi.toNat].data.code.size ≤ 2 ^ 64
 
 /-- an accepted `SpawnWarrior`: the model and the reference accept, and the states stay
     related -/
@@ -322,17 +339,21 @@ theorem spawn_accept {s : Sim} {a : Api} {wi : Int} {off : UInt64} (hwf : s.WF) 
     rw [hwf.count]
     show wi < (s.warriors.size : Int)
     omega
+  -- the offset is reduced first
+  have ho : (off % s.m).toNat = off.toNat % a.M := by rw [UInt64.toNat_mod, hr.M]
+  obtain ⟨o, hoo⟩ : ∃ o, off % s.m = o := ⟨_, rfl⟩
+  rw [hoo] at hs1 hcd ho
+  have hmodel := fun mem q => spawn_eq s wi off o hoo h0 hcount hlt hst hm0 mem q
   -- the code is loaded
-  obtain ⟨mem, hmem, hmsz, hmabs⟩ := spawn_load s.m off s.warriors[wi.toNat].data.code hmpos
+  obtain ⟨mem, hmem, hmsz, hmabs⟩ := spawn_load s.m o s.warriors[wi.toNat].data.code hmpos
     (List.range s.warriors[wi.toNat].data.code.size) s.mem
     (fun i hi => by rw [List.mem_range] at hi; exact ⟨hi, by omega⟩) hwf.size
   -- the fresh queue
   obtain ⟨hinv, hnil, hsz⟩ := PQ.new_inv s.maxProcs (by have := hwf.procs; omega)
   obtain ⟨q, hpush, _, _, hql⟩ := PQ.push_ok (PQ.new s.maxProcs)
-    ((off + intToAddr s.warriors[wi.toNat].data.start) % s.m) hinv
+    ((o + intToAddr s.warriors[wi.toNat].data.start) % s.m) hinv
   rw [hnil, hsz, if_pos (by simp only [List.length_nil]; have := hwf.procs; omega),
     List.nil_append] at hql
-  have hmodel := spawn_eq s wi off h0 hcount hlt hst hm0 mem q hmem hpush
   -- the reference
   have haw : a.ws[wi.toNat]? = some a.ws[wi.toNat] := List.getElem?_eq_getElem hlt'
   obtain ⟨hast, _⟩ := hr.ws wi.toNat hlt hlt'
@@ -342,9 +363,11 @@ theorem spawn_accept {s : Sim} {a : Api} {wi : Int} {off : UInt64} (hwf : s.WF) 
     intro h
     apply hst
     cases hs : s.warriors[wi.toNat].state <;> rw [hs] at h <;> first | rfl | cases h
-  have hspec := Spec.Api.spawn_eq a wi off.toNat h0 _ haw hast'
-  refine ⟨_, _, hmodel, hspec, ?_⟩
-  have hsame : Same s (s.spawned wi.toNat hlt mem q off) :=
+  have hspec := Spec.Api.spawn_eq a wi o.toNat h0 _ haw hast'
+  rw [ho, Spec.Api.spawn_mod] at hspec
+  rw [← ho] at hspec
+  refine ⟨_, _, hmodel mem q hmem hpush, hspec, ?_⟩
+  have hsame : Same s (s.spawned wi.toNat hlt mem q o) :=
     ⟨rfl, rfl, rfl, rfl, rfl, by simp [Sim.spawned, Sim.report], rfl, rfl, rfl⟩
   refine hr.update hsame wi.toNat _ ?_ ?_
     { s.warriors[wi.toNat] with pq := some q, state := .alive } ?_ _ rfl ?_
@@ -358,7 +381,7 @@ theorem spawn_accept {s : Sim} {a : Api} {wi : Int} {off : UInt64} (hwf : s.WF) 
     exact Array.getElem?_set_ne hlt (Ne.symm hj)
   · simp only [Sim.spawned, Sim.report]
     exact Array.getElem?_set_self hlt
-  · show enqueue a.P [] [(off.toNat + a.ws[wi.toNat].start) % a.M] = q.toList.map (·.toNat)
+  · show enqueue a.P [] [(o.toNat + a.ws[wi.toNat].start) % a.M] = q.toList.map (·.toNat)
     rw [enqueue_single _ _ (by rw [hr.P]; exact hwf.procs), hql, hstart, hr.M]
     simp only [List.map_cons, List.map_nil, List.cons.injEq, and_true]
     rw [UInt64.toNat_mod, UInt64.toNat_add, intToAddr_toNat _ hs0 (by omega),
@@ -386,8 +409,8 @@ theorem spawn_reject {s : Sim} {a : Api} {wi : Int} {off : UInt64} (hwf : s.WF) 
     rfl
 
 /-- the case distinction of `SpawnWarrior` -/
-theorem spawn_cases {s : Sim} (hs : StartsOK s) (wi : Int) {off : UInt64}
-    (hoff : off.toNat < 2 ^ 63) :
+theorem spawn_cases {s : Sim} (hs : StartsOK s) (wi : Int) (off : UInt64)
+    (hm0 : 0 < s.m.toNat) (hm : s.m.toNat ≤ 2 ^ 63) :
     (wi < 0 ∨ s.warriors.size ≤ wi.toNat ∨
       ∃ hlt : wi.toNat < s.warriors.size, s.warriors[wi.toNat].state = .alive) ∨
     SpawnPre s wi off := by
@@ -399,20 +422,24 @@ theorem spawn_cases {s : Sim} (hs : StartsOK s) (wi : Int) {off : UInt64}
   by_cases h2 : s.warriors[wi.toNat].state = .alive
   · exact Or.inl (Or.inr (Or.inr ⟨hlt, h2⟩))
   obtain ⟨hs0, hs1, hs2⟩ := hs.get wi.toNat hlt
+  have hoff : (off % s.m).toNat < 2 ^ 63 := by
+    rw [UInt64.toNat_mod]
+    exact Nat.lt_of_lt_of_le (Nat.mod_lt _ hm0) hm
   refine Or.inr ⟨by omega, hlt, fun _ => h2, fun _ => hs0, fun _ => ?_, fun _ => ?_⟩
   · have : s.warriors[wi.toNat].data.start.toNat < 2 ^ 63 := by omega
     omega
   · omega
 
 /-- **`SpawnWarrior`.** The model accepts the call exactly when the reference accepts it, and
-    then the states stay related; a rejected call leaves the state unchanged. -/
+    then the states stay related; a rejected call leaves the state unchanged. For EVERY offset
+    (`SpawnWarrior` reduces it modulo the core size first); the core has at most 2^63 cells. -/
 theorem spawn_rel {s : Sim} {a : Api} {wi : Int} {off : UInt64} (hwf : s.WF) (hr : Rel s a)
-    (hd : DataRel s a) (hs : StartsOK s) (hoff : off.toNat < 2 ^ 63) :
+    (hd : DataRel s a) (hs : StartsOK s) (hm : s.m.toNat ≤ 2 ^ 63) :
     match s.spawn wi off, a.spawn wi off.toNat with
     | .ok (s', true), some a' => Rel s' a'
     | .ok (s', false), none => s' = s
     | _, _ => False := by
-  rcases spawn_cases hs wi hoff with h | h
+  rcases spawn_cases hs wi off (by have := hwf.m3; omega) hm with h | h
   · obtain ⟨h1, h2⟩ := spawn_reject (off := off) hwf hr h
     rw [h1, h2]
   · obtain ⟨s', a', h1, h2, h3⟩ := spawn_accept hwf hr hd h
@@ -583,7 +610,6 @@ def Spec.Api.applyOp (a : Api) : ApiOp → Api
 /-- the assumptions on the arguments of an API call, for core size `m` -/
 def ApiOp.OK (m : UInt64) : ApiOp → Prop
   | .add d => (∀ x ∈ d.code.toList, x.a < m ∧ x.b < m) ∧ d.StartOK
-  | .spawn _ off => off.toNat < 2 ^ 63
   | _ => True
 
 /-- the strengthened induction hypothesis of `api_refines` -/
@@ -631,7 +657,8 @@ theorem applyOp_refines {s : Sim} {a : Api} (h : ApiInv s a) (op : ApiOp) (hop :
   | spawn wi off =>
     obtain ⟨⟨s', b⟩, hsp, hwf', hk⟩ := spawn_spec s wi off h.wf h.code
     refine ⟨s', by simp only [Sim.applyOp, hsp, Except.map], ?_, hk.m⟩
-    rcases spawn_cases h.starts wi hop with hc | hc
+    rcases spawn_cases h.starts wi off (by have := h.wf.m3; omega)
+      (by have := h.m32; omega) with hc | hc
     · obtain ⟨h1, h2⟩ := spawn_reject (off := off) h.wf h.rel hc
       rw [hsp] at h1
       cases h1
@@ -696,25 +723,55 @@ theorem api_refines {c : Config} {s0 : Sim} {ops : List ApiOp} (hnew : Sim.new c
   obtain ⟨s, h1, h2⟩ := applyOps_refines ops hinv (by rw [hmc]; exact hops)
   exact ⟨s, h1, h2.wf, h2.rel⟩
 
-/-! ## why the no-wrap hypotheses are needed -/
+/-! ## `SpawnWarrior` at any offset -/
+
+theorem UInt64.mod_mod_self (a m : UInt64) : a % m % m = a % m := by
+  apply UInt64.toNat_inj.mp
+  simp only [UInt64.toNat_mod, Nat.mod_mod]
+
+/-- **`spawn_any_offset`.** `SpawnWarrior` reduces the offset modulo the core size before it
+    does anything with it, so for EVERY 64-bit offset the call is the call at the reduced
+    offset: same result, same state, same report (no hypothesis at all: also for rejected calls
+    and an ill-formed simulator). -/
+theorem spawn_any_offset (s : Sim) (wi : Int) (off : UInt64) :
+    s.spawn wi off = s.spawn wi (off % s.m) := by
+  unfold Sim.spawn
+  simp only [UInt64.mod_mod_self]
+
+/-- two offsets that are congruent modulo the core size give the same `SpawnWarrior` call -/
+theorem spawn_congr_model (s : Sim) (wi : Int) (off off' : UInt64) (h : off % s.m = off' % s.m) :
+    s.spawn wi off = s.spawn wi off' := by
+  rw [spawn_any_offset s wi off, spawn_any_offset s wi off', h]
+
+/-- ... and hence `SpawnWarrior` at any offset is the reference's spawn at `off mod M`: the model
+    accepts exactly when the reference does, and the states stay related. -/
+theorem spawn_any_offset_ref {s : Sim} {a : Api} {wi : Int} {off : UInt64} (hwf : s.WF)
+    (hr : Rel s a) (hd : DataRel s a) (hs : StartsOK s) (hm : s.m.toNat ≤ 2 ^ 63) :
+    match s.spawn wi off, a.spawn wi (off.toNat % a.M) with
+    | .ok (s', true), some a' => Rel s' a'
+    | .ok (s', false), none => s' = s
+    | _, _ => False := by
+  rw [Spec.Api.spawn_mod]
+  exact spawn_rel hwf hr hd hs hm
 
 def wrapCfg : Config := Config.quick .icws94 3 2 5 1
 
 def wrapData : WarriorData :=
   { code := #[{ op := .mov, a := 1 }, { op := .jmp, a := 2 }], start := 1 }
 
-/-- Without `off + start < 2^64` and `off + len(code) ≤ 2^64` the model (Go's `uint64`
-    arithmetic) and the reference disagree: core size 3, offset 2^64-1, a two-instruction
-    warrior with start 1. `off + 1` wraps to 0, so the model loads the second instruction over
-    the first one (cell 0) and queues 0; the reference loads cells 0, 1 and queues 1. -/
-theorem spawn_wrap_counterexample :
+/-- Offset 2^64-1 (where `off + 1` used to wrap to 0, loading the second instruction over the
+    first one): core size 3, a two-instruction warrior with start 1. 2^64-1 ≡ 0 (mod 3), so model
+    and reference load cells 0, 1 and queue 1, exactly as for offset 0. -/
+example :
     ∃ s s' a', Sim.new wrapCfg = some s ∧
       (s.addWarrior wrapData).spawn 0 18446744073709551615 = .ok (s', true) ∧
+      (s.addWarrior wrapData).spawn 0 0 = .ok (s', true) ∧
       ((Api.new 3 3 3 2 5).add (wrapData.code.toList.map Instr.abs) 1).spawn 0
         18446744073709551615 = some a' ∧
-      s'.absCore.map SInstr.op = [.jmp, .dat, .dat] ∧
+      s'.absCore.map SInstr.op = [.mov, .jmp, .dat] ∧
       a'.core.map SInstr.op = [.mov, .jmp, .dat] ∧
-      s'.warriors.toList.map Warrior.absQueue = [[0]] ∧ a'.ws.map SW.q = [[1]] := by
-  refine ⟨_, _, _, rfl, rfl, rfl, ?_, ?_, ?_, ?_⟩ <;> decide
+      s'.absCore = a'.core ∧
+      s'.warriors.toList.map Warrior.absQueue = [[1]] ∧ a'.ws.map SW.q = [[1]] := by
+  refine ⟨_, _, _, rfl, rfl, rfl, rfl, ?_, ?_, ?_, ?_, ?_⟩ <;> decide
 
 end Gmars
